@@ -11,7 +11,10 @@
 //!
 //! This module contains [Builder] and [OptBuilder]. The only difference is that the latter allows
 //! pushing optional values with guaranteed uniqueness (no key).
+#[cfg(not(kani))]
 use indexmap::{map, IndexMap};
+#[cfg(kani)]
+use crate::verif_kani::maps::{map, IndexMap};
 use std::hash::Hash;
 use std::iter::FusedIterator;
 
